@@ -3,10 +3,11 @@ import AkVerif.Model.GhistTags
 open Ak Ak.Proto Ghist
 
 /-!
-`rep <remote> <commits> <refs>`
+`rep <remote> <text> <commits> <refs>`
 * remote  : code points
-* commits : `;`-separated `parents:tags:match:time:saved` (`parents` = comma list or `-`; `tags` = `+`-separated tag
-            names as code points or `-`; `match` = 0/1; `time` = commit time in seconds; `saved` = `major.minor` of the
+* text    : the search text, code points (`-` = empty)
+* commits : `;`-separated `parents:tags:message:time:saved` (`parents` = comma list or `-`; `tags` = `+`-separated tag
+            names as code points or `-`; `message` = commit message as code points; `time` = commit time in seconds; `saved` = `major.minor` of the
             version file in the commit or `-`), the position is the commit id; `-` = no commit
 * refs    : `;`-separated `name:head` (`name` as code points), `-` = none
 reply: `ok <branch> <branch> …`, branch = `name=build;build;…`, build = `N|M:bn:commit|-:c,c,…`
@@ -26,12 +27,12 @@ def parseSaved (s : String) : Option (Option (Nat × Nat)) :=
     | some [a, b] => some (some (a, b))
     | _ => none
 
-def parseCommit (s : String) : Option (RawCommit Unit) :=
+def parseCommit (text : List Char) (s : String) : Option (RawCommit Unit) :=
   match s.splitOn ":" with
   | [p, t, m, ts, sv] =>
-    match parseNatList p, parseTagNames t, m.toNat?, ts.toNat?, parseSaved sv with
-    | some ps, some tg, some k, some time, some saved =>
-      some { parents := ps, tagNames := tg, saved := saved, isMatch := k != 0, pins := (), time := time }
+    match parseNatList p, parseTagNames t, parseCps m, ts.toNat?, parseSaved sv with
+    | some ps, some tg, some msg, some time, some saved =>
+      some { parents := ps, tagNames := tg, saved := saved, isMatch := occursIn text msg, pins := (), time := time }
     | _, _, _, _, _ => none
   | _ => none
 
@@ -57,15 +58,20 @@ def showBranch (b : RepBranch) : String :=
 
 def showReport (r : List RepBranch) : String := " ".intercalate (r.map showBranch)
 
+def handleRep (rm tx : List Char) (commits refs : String) : String :=
+  match parseList (parseCommit tx) commits, parseList parseRef refs with
+  | some raw, some rs =>
+    match toCommits raw with
+    | .ok cs => showExcept showReport (report { commits := cs, remote := rm, refs := rs } Plug.none)
+    | .error _ => "bad-op"      -- a build tag that needs the saved version of a commit that has none
+  | _, _ => "bad-op"
+
 def handle (line : String) : String :=
   match splitWs line with
-  | ["rep", remote, commits, refs] =>
-    match parseCps remote, parseList parseCommit commits, parseList parseRef refs with
-    | some rm, some raw, some rs =>
-      match toCommits raw with
-      | .ok cs => showExcept showReport (report { commits := cs, remote := rm, refs := rs } Plug.none)
-      | .error _ => "bad-op"      -- a build tag that needs the saved version of a commit that has none
-    | _, _, _ => "bad-op"
+  | ["rep", remote, text, commits, refs] =>
+    match parseCps remote, parseCps text with
+    | some rm, some tx => handleRep rm tx commits refs
+    | _, _ => "bad-op"
   | _ => "bad-op"
 
 def main : IO Unit := run handle
